@@ -1043,6 +1043,21 @@ func genWorld(r *Rand, cfg GenCfg) Plan {
 		g.note("sibling:" + kind)
 	}
 
+	// --- the very proofs of a chain that was just allowed, presented by SOMEBODY ELSE (same
+	// subject, same command, same proof list, another invoker), and by the rightful invoker again
+	if conform && len(c.dlgs) >= 1 && r.Chance(0.25) {
+		inv2 := c.inv
+		inv2.Label = g.newInvLabel()
+		inv2.Iss = g.other(c.inv.Iss, c.dlgs[len(c.dlgs)-1].Aud)
+		inv2.Prf = append([]string{}, c.inv.Prf...)
+		g.issueInv(inv2)
+		g.emit(WStep{Op: "ship", Ship: g.shipSpec(append(append([]string{}, dl...), append(append([]string{}, il...), inv2.Label)...), false)})
+		g.emit(WStep{Op: "check", Check: &CheckSpec{Inv: c.inv.Label}})
+		g.emit(WStep{Op: "check", Check: &CheckSpec{Inv: inv2.Label}})
+		g.emit(WStep{Op: "check", Check: &CheckSpec{Inv: c.inv.Label}})
+		g.note("sibling:other-invoker")
+	}
+
 	// --- recovery: after the last fault everything is re-delivered fault-free
 	if faulty && r.Chance(0.6) {
 		g.emit(WStep{Op: "ship", Ship: g.shipSpec(append(append([]string{}, dl...), il...), false)})
